@@ -1,9 +1,9 @@
 /-
   C06 — value ordering is a total preorder; sort and merge honour it at any memory limit.
   Property theorems only.  Tables come from Zed.Generated.C06 (regenerated from /repo/type.go,
-  runtime/sam/expr/sort.go, eval.go on every check).
+  runtime/sam/expr/sort.go, eval.go on every check); the model is Zed.Model.Compare.
 -/
-import Zed.Model.Compare
+import Zed.Proofs.Rows
 namespace Zed.Props.C06
 open Zed
 
@@ -24,5 +24,142 @@ theorem compare_shape :
     Generated.C06.fastUnsigned =
       ["v := val.Uint()", "if v > math.MaxInt64 { v = math.MaxInt64 }", "i64s[i] = int64(v)"] := by
   decide
+
+/-- Obligation on the regenerated facts: the null branches of `compareValues` are antisymmetric
+    (a null against a non-null gives opposite signs in the two argument orders) and follow
+    `nullsMax`; the fast path's null sentinels are the matching extremes. -/
+theorem null_branches :
+    ordOfInt Generated.C06.bothNull = .eq ∧
+    ordOfInt Generated.C06.nullA.1 = .gt ∧ ordOfInt Generated.C06.nullA.2 = .lt ∧
+    ordOfInt Generated.C06.nullB.1 = .lt ∧ ordOfInt Generated.C06.nullB.2 = .gt ∧
+    Generated.C06.fastNullSentinel = ("MaxInt64", "MinInt64") := by decide
+
+/-! ### the order on values
+
+  Full statement (`compare_total_preorder`): for every `nullsMax` and all values `a b c`,
+  `cmpVal a a = eq`, `cmpVal b a = (cmpVal a b).swap` and
+  `cmpVal a b ≠ gt → cmpVal b c ≠ gt → cmpVal a c ≠ gt`.
+  Reflexivity and antisymmetry hold for all values; transitivity is FALSE of the current code
+  (`not_compare_transitive`, `not_compare_transitive_named`) and is proved under the guards
+  `Val.ok` (well-formed, no nested named types) and `PairOK` (no integer beyond ±2^53 meets a
+  float) in `compare_total_preorder_partial`. -/
+
+theorem compare_refl (nullsMax : Bool) (a : Val) : cmpVal nullsMax a a = .eq := cmpVal_refl nullsMax a
+
+theorem compare_antisymm (nullsMax : Bool) (a b : Val) :
+    cmpVal nullsMax b a = (cmpVal nullsMax a b).swap := cmpVal_swap nullsMax a b
+
+def tInt64 : Ty := .prim 9
+def tFloat64 : Ty := .prim 16
+/-- int64 2^53 + 1 -/
+def wA : Val := .num tInt64 (.int 9007199254740993)
+/-- float64 2^53 -/
+def wB : Val := .num tFloat64 (.float (.fin ((9007199254740992 : Int) * scale)))
+/-- int64 2^53 -/
+def wC : Val := .num tInt64 (.int 9007199254740992)
+
+set_option exponentiation.threshold 2000 in
+set_option maxRecDepth 20000 in
+/-- `2^53+1 ≤ 2^53. ≤ 2^53` but `2^53+1 > 2^53` (all three well-formed values). -/
+theorem not_compare_transitive :
+    ¬ (∀ (nullsMax : Bool) (a b c : Val), a.ok = true → b.ok = true → c.ok = true →
+        cmpVal nullsMax a b ≠ .gt → cmpVal nullsMax b c ≠ .gt → cmpVal nullsMax a c ≠ .gt) := by
+  intro h
+  exact h true wA wB wC (by decide) (by decide) (by decide) (by decide) (by decide) (by decide)
+
+set_option exponentiation.threshold 2000 in
+set_option maxRecDepth 20000 in
+/-- the float the model decodes from the bytes of float64 2^53 is `wB`'s -/
+example : decodeFloat [0, 0, 0, 0, 0, 0, 0x40, 0x43] = some (.fin ((9007199254740992 : Int) * scale)) := by
+  decide
+
+def tXY : Ty := .named [120] (.named [121] tInt64)
+def tXZ : Ty := .named [120] (.named [122] tInt64)
+def tRA : Ty := .record (.cons [97] tXY .nil)
+def tRB : Ty := .record (.cons [97] tXZ .nil)
+
+/-- values of two distinct record types that `CompareTypes` cannot tell apart (C05): all values of
+    the two types compare equal across types, but are ordered by content inside one type. -/
+theorem not_compare_transitive_named :
+    ¬ (∀ (nullsMax : Bool) (a b c : Val),
+        cmpVal nullsMax a b ≠ .gt → cmpVal nullsMax b c ≠ .gt → cmpVal nullsMax a c ≠ .gt) := by
+  intro h
+  exact h true (.raw tRA [2, 4]) (.raw tRB [2, 2]) (.raw tRA [2, 2]) (by decide) (by decide) (by decide)
+
+theorem compare_total_preorder_partial (nullsMax : Bool) (a b c : Val)
+    (oka : a.ok = true) (okb : b.ok = true) (okc : c.ok = true)
+    (pab : PairOK a b) (pbc : PairOK b c) (pac : PairOK a c) :
+    cmpVal nullsMax a a = .eq ∧ cmpVal nullsMax b a = (cmpVal nullsMax a b).swap ∧
+    (cmpVal nullsMax a b ≠ .gt → cmpVal nullsMax b c ≠ .gt → cmpVal nullsMax a c ≠ .gt) :=
+  ⟨cmpVal_refl nullsMax a, cmpVal_swap nullsMax a b,
+   (cmpVal_STr nullsMax a b c oka okb okc pab pbc pac).le⟩
+
+/-- equality under the order is transitive as well (same guards) -/
+theorem compare_eq_trans_partial (nullsMax : Bool) (a b c : Val)
+    (oka : a.ok = true) (okb : b.ok = true) (okc : c.ok = true)
+    (pab : PairOK a b) (pbc : PairOK b c) (pac : PairOK a c) :
+    cmpVal nullsMax a b = .eq → cmpVal nullsMax b c = .eq → cmpVal nullsMax a c = .eq :=
+  (cmpVal_STr nullsMax a b c oka okb okc pab pbc pac).eq_eq
+
+set_option exponentiation.threshold 2000 in
+set_option maxRecDepth 20000 in
+/-- non-vacuity: a float meets integers within ±2^53, and the witness pair of
+    `not_compare_transitive` is exactly what `PairOK` excludes. -/
+example : wC.ok = true ∧ wB.ok = true ∧ PairOK wC wB ∧ ¬ PairOK wA wB := by
+  refine ⟨by decide, by decide, ?_, ?_⟩
+  · intro _; exact ⟨by decide, by decide⟩
+  · intro h; exact absurd (h (Or.inr rfl)).1 (by decide)
+
+/-! ### the bulk sorter -/
+
+/-- `sortStableIndices` (int64 fast path, null sentinels, clamping of large uint64) orders
+    exactly like `Comparator.Compare`, for every input of well-formed keys. -/
+theorem fastpath_agrees (nullsMax : Bool) (dirs : List Bool) (rows : List Row)
+    (hok : ∀ r ∈ rows, ∀ k ∈ r.keys, k.ok = true) :
+    sortRows nullsMax dirs rows = sortRowsRef nullsMax dirs rows :=
+  sortRows_eq_ref nullsMax dirs rows hok
+
+/-- the sort output is a permutation of the input, non-decreasing under `Comparator.Compare`, and
+    stable (a sub-sequence of the input that is already in order keeps its order; in particular
+    rows with equal keys). -/
+theorem sort_perm_sorted_stable (nullsMax : Bool) (dirs : List Bool) (m : Bool) (rows : List Row)
+    (h : ∀ r ∈ rows, r.okFor dirs m) :
+    (sortRows nullsMax dirs rows).Perm rows ∧
+    (sortRows nullsMax dirs rows).Pairwise (fun a b => cmpRow nullsMax dirs a b ≠ .gt) ∧
+    (∀ c : List Row, c.Sublist rows → c.Pairwise (fun a b => cmpRow nullsMax dirs a b ≠ .gt) →
+      c.Sublist (sortRows nullsMax dirs rows)) := by
+  rw [sortRows_ok_eq nullsMax dirs m rows h]
+  have tr := fun a b c (ha : a.okFor dirs m) (hb : b.okFor dirs m) (hc : c.okFor dirs m) =>
+    leRow_trans nullsMax dirs m a b c ha hb hc
+  have to := fun a b (_ : a.okFor dirs m) (_ : b.okFor dirs m) => leRow_total nullsMax dirs a b
+  refine ⟨List.mergeSort_perm _ _, ?_, ?_⟩
+  · exact (sorted_on (fun r => r.okFor dirs m) (leRow nullsMax dirs) tr to rows h).imp
+      (fun hab => (leRow_iff nullsMax dirs _ _).mp hab)
+  · intro c hs hc
+    exact stable_on (fun r => r.okFor dirs m) (leRow nullsMax dirs) tr to rows c h
+      (hc.imp (fun hab => (leRow_iff nullsMax dirs _ _).mpr hab)) hs
+
+/-- **spill invariance**: for every way of cutting the input into runs (any memory limit, any
+    batch sizes), sorting the runs and merging them with the run ordinal as tie-break gives the
+    in-memory stable sort of the whole input. -/
+theorem spill_invariant (nullsMax : Bool) (dirs : List Bool) (m : Bool) (chunks : List (List Row))
+    (h : ∀ c ∈ chunks, ∀ r ∈ c, r.okFor dirs m) :
+    sortSpill nullsMax dirs chunks = sortRows nullsMax dirs chunks.flatten :=
+  sortSpill_eq nullsMax dirs m chunks h
+
+/-- the sort operator (flags → comparator, run formation by byte budget, spill, merge) gives the
+    same output for every memory limit -/
+theorem sortOp_limit_irrelevant (nullsFirst reverse : Bool) (dirs : List Bool) (m : Bool)
+    (limit limit' : Nat) (batches : List (List (Row × Nat)))
+    (h : ∀ r ∈ batchRows batches, r.okFor (sortConfig nullsFirst reverse dirs).2 m) :
+    sortOp nullsFirst reverse dirs limit batches = sortOp nullsFirst reverse dirs limit' batches := by
+  rw [sortOp_eq nullsFirst reverse dirs m limit batches h, sortOp_eq nullsFirst reverse dirs m limit' batches h]
+
+/-- non-vacuity of the row guard -/
+example : (Row.mk [.num tInt64 (.int 5), .null tFloat64] 0).okFor [false, true] true := by
+  refine ⟨rfl, ?_⟩
+  intro k hk
+  simp only [List.mem_cons, List.mem_nil_iff, or_false] at hk
+  rcases hk with rfl | rfl <;> exact ⟨by decide, by decide⟩
 
 end Zed.Props.C06
